@@ -196,7 +196,11 @@ def run(ctx, rep):
     if ok:
         e = equal_edge_of(hp, hc[0])
         sk = [i for i in hp.all_insts() if i.op == 'store' and hp.expr(i.ops[1]) == 'skip_sync' and hp.const_of(i.ops[0]) == 1]
-        ok = e is not None and any(hp.bdominates(e[2], x.block) for x in sk)
+        lp_ = hp.loop_of(hc[0].block)
+        lat_ = [x for x in hp.loops[lp_] if lp_ in hp.succ[x]] if lp_ is not None else []
+        # every path from the mismatch edge to the next block (or out of the loop) passes the store
+        exits_ = [s_ for x in hp.loops[lp_] for s_ in hp.succ[x] if s_ not in hp.loops[lp_]] if lp_ is not None else []
+        ok = e is not None and bool(sk) and C04.must_increment(hp, e[2], sk, lat_ + [lp_] + exits_)
         # mismatch edge cannot reach the REP/BLK... nothing is committed: it `continue`s
     rep.check(ok, 'R-C19-5', 'state_hash_process: REP mismatch sets *skip_sync', hp.file, '', function='state_hash_process', construct='prehash mismatch')
     ss = P.fn('state_sync')
